@@ -60,7 +60,7 @@ func runC03(r *core.Run) {
 	c03IsDoneFinal(r, fDoneStatus)
 	c03Synthetic(r, fDoneStatus)
 	c03Drain(r)
-	c03Reset(r)
+	c03Reset(r, "R03.4")
 }
 
 func c03IsDoneFinal(r *core.Run, fDoneStatus *types.Var) {
@@ -422,7 +422,7 @@ func c03Drain(r *core.Run) {
 	r.Check(okNil, "R03.3", "NextPackageUntil: nil-callback mode drains to DONE(FINAL)", nilIf.Pos(), "returns only after DONE(FINAL) or through the recursive wait for it", whyNil)
 }
 
-func c03Reset(r *core.Run) {
+func c03Reset(r *core.Run, rule string) {
 	p := r.Prog
 	reset := p.Func("tds", "Channel", "Reset")
 	fHdr := p.Field("tds", "Channel", "CurrentHeaderType")
@@ -470,7 +470,7 @@ func c03Reset(r *core.Run) {
 			okReset = true
 		}
 	}
-	r.Check(okReset, "R03.4", "Channel.Reset restores the tx side", reset.Pos(), "CurrentHeaderType = TDS_BUF_NORMAL, queueTx.Reset(), lastPkgTx = nil (directly or through its unlocked helper)", "Reset no longer restores header type, tx queue and lastPkgTx: state of one message leaks into the next")
+	r.Check(okReset, rule, "Channel.Reset restores the tx side", reset.Pos(), "CurrentHeaderType = TDS_BUF_NORMAL, queueTx.Reset(), lastPkgTx = nil (directly or through its unlocked helper)", "Reset no longer restores header type, tx queue and lastPkgTx: state of one message leaks into the next")
 
 	srp := p.Func("tds", "Channel", "SendRemainingPackets")
 	isRestore := func(f *ssa.Function) bool { return f != nil && (f == reset || restorers[f]) }
@@ -500,5 +500,5 @@ func c03Reset(r *core.Run) {
 		}
 		deferred = all && len(callsTo(srp, sp)) > 0
 	}
-	r.Check(deferred, "R03.4", "SendRemainingPackets resets on every exit", srp.Pos(), "the tx state is restored on every exit after the flush", "after flushing a message the channel is not reset on every exit")
+	r.Check(deferred, rule, "SendRemainingPackets resets on every exit", srp.Pos(), "the tx state is restored on every exit after the flush", "after flushing a message the channel is not reset on every exit")
 }
